@@ -1,7 +1,9 @@
+// Package hcodec: harnesses for the entry codec (C12, and the codec part of C11).
 package hcodec
 
 import (
 	"bytes"
+	"time"
 
 	"github.com/hashicorp/raft"
 	wal "github.com/hashicorp/raft-wal"
@@ -9,13 +11,18 @@ import (
 	"harness/vrt"
 )
 
-// HarnessDecode: Decode of an arbitrary buffer never panics.
+var lens = []int{0, 1, 2, 127, 128}
+
+// HarnessDecode (C11): Decode of every buffer of length <= maxlen (every byte
+// symbolic) returns, it never panics (the engine's implicit bounds / slice
+// checks are the assertion), and whatever it allocates is no larger than the input.
 func HarnessDecode() {
-	n := vrt.Choice("len", 13)
+	n := vrt.Choice("len", vrt.Param("maxlen", 12)+1)
 	buf := vrt.Bytes("buf", n)
 	var c wal.BinaryCodec
 	var l raft.Log
 	err := c.Decode(buf, &l)
+	vrt.Assert("C11.decode-alloc-bounded", len(l.Data) <= n && len(l.Extensions) <= n)
 	if err == nil {
 		vrt.Reach("decoded-ok")
 	} else {
@@ -23,27 +30,87 @@ func HarnessDecode() {
 	}
 }
 
-// HarnessVarintRoundTrip: Encode then Decode gives back Index/Term/Type/Data.
-func HarnessRoundTrip() {
-	l := raft.Log{Index: vrt.U64("index"), Term: vrt.U64("term"), Type: raft.LogType(vrt.U8("type"))}
-	l.Data = vrt.Bytes("data", vrt.Choice("dlen", 3))
+// HarnessDecodeMutated (C11): a valid encoding with one symbolic byte
+// overwritten at a symbolic position, or truncated at a symbolic point: no panic.
+func HarnessDecodeMutated() {
+	l := raft.Log{Index: vrt.U64("index"), Term: 3, Type: raft.LogCommand}
+	l.Data = vrt.Bytes("data", 3)
+	l.Extensions = vrt.Bytes("ext", 2)
+	l.AppendedAt = time.Unix(1700000000, 5)
 	var buf bytes.Buffer
 	var c wal.BinaryCodec
 	if err := c.Encode(&l, &buf); err != nil {
-		vrt.Assert("encode-ok", false)
+		vrt.Assert("C12.encode-ok", false)
 		return
 	}
+	bs := buf.Bytes()
+	if vrt.Bool("truncate") {
+		cut := vrt.Choice("cut", len(bs)+1)
+		bs = bs[:cut]
+		vrt.Reach("truncated")
+	} else {
+		pos := vrt.Choice("pos", len(bs))
+		bs[pos] = vrt.U8("newbyte")
+		vrt.Reach("byte-overwritten")
+	}
 	var out raft.Log
-	err := c.Decode(buf.Bytes(), &out)
-	vrt.Assert("decode-ok", err == nil)
-	vrt.Assert("index", out.Index == l.Index)
-	vrt.Assert("term", out.Term == l.Term)
-	vrt.Assert("type", out.Type == l.Type)
-	vrt.Assert("data", bytes.Equal(out.Data, l.Data))
+	err := c.Decode(bs, &out)
+	vrt.Assert("C11.decode-alloc-bounded", len(out.Data) <= len(bs) && len(out.Extensions) <= len(bs))
+	_ = err
+	vrt.Reach("mutated-decoded")
+}
+
+// HarnessRoundTrip (C12): decode(encode(l)) == l. Index and Term are full
+// 64-bit symbolic (all ten varint widths), Type 8-bit, Data/Extensions of the
+// length classes nil/empty/1/2/127/128 with symbolic bytes, AppendedAt symbolic
+// seconds/nanoseconds (UTC) through the time contract stub.
+func HarnessRoundTrip() {
+	l := raft.Log{Index: vrt.U64("index"), Term: vrt.U64("term"), Type: raft.LogType(vrt.U8("type"))}
+	dl := lens[vrt.Choice("dlen", vrt.Param("ndlen", 3))]
+	el := lens[vrt.Choice("elen", vrt.Param("nelen", 2))]
+	l.Data = vrt.Bytes("data", dl)
+	l.Extensions = vrt.Bytes("ext", el)
+	if dl == 0 && vrt.Bool("nildata") {
+		l.Data = nil
+	}
+	if el == 0 && vrt.Bool("nilext") {
+		l.Extensions = nil
+	}
+	if vrt.Param("time", 1) == 1 {
+		sec := vrt.U64("sec")
+		nsec := vrt.U32("nsec")
+		vrt.Assume(sec < 1<<40 && nsec < 1000000000)
+		l.AppendedAt = time.Unix(int64(sec), int64(nsec)).UTC()
+	}
+	var buf bytes.Buffer
+	var c wal.BinaryCodec
+	if err := c.Encode(&l, &buf); err != nil {
+		vrt.Assert("C12.encode-ok", false)
+		return
+	}
+	enc := buf.Bytes()
+	snapshot := append([]byte(nil), enc...)
+	var out raft.Log
+	err := c.Decode(enc, &out)
+	vrt.Assert("C12.decode-ok", err == nil)
+	vrt.Assert("C12.index", out.Index == l.Index)
+	vrt.Assert("C12.term", out.Term == l.Term)
+	vrt.Assert("C12.type", out.Type == l.Type)
+	vrt.Assert("C12.data", bytes.Equal(out.Data, l.Data))
+	vrt.Assert("C12.extensions", bytes.Equal(out.Extensions, l.Extensions))
+	vrt.Assert("C12.time", out.AppendedAt.Equal(l.AppendedAt))
+	// no aliasing: scribbling over the input buffer must not change the decoded log
+	for i := range enc {
+		enc[i] = 0xAA
+	}
+	vrt.Assert("C12.data-not-aliased", bytes.Equal(out.Data, l.Data))
+	vrt.Assert("C12.ext-not-aliased", bytes.Equal(out.Extensions, l.Extensions))
+	_ = snapshot
 	vrt.Reach("roundtrip-checked")
 }
 
 var Harnesses = map[string]func(){
-	"HarnessDecode":    HarnessDecode,
-	"HarnessRoundTrip": HarnessRoundTrip,
+	"HarnessDecode":        HarnessDecode,
+	"HarnessDecodeMutated": HarnessDecodeMutated,
+	"HarnessRoundTrip":     HarnessRoundTrip,
 }
